@@ -25,7 +25,8 @@ package basepeerleecher
 //@   ensures true
 //@
 //@ inv BasePeerLeecher flow(d):
-//@   d != nil && 0 <= d.totalProcessed && d.totalProcessed <= Big && 0 <= d.totalRequested &&
+//@   d != nil && d.callback.Suspend != nil && d.callback.Done != nil && d.callback.RequestChunks != nil && d.callback.IsProcessed != nil &&
+//@   0 <= d.totalProcessed && d.totalProcessed <= Big && 0 <= d.totalRequested &&
 //@   0 <= d.cfg.ParallelChunksDownload && d.cfg.ParallelChunksDownload <= 4294967295 &&
 //@   d.totalRequested <= d.totalProcessed + d.cfg.ParallelChunksDownload
 //@
